@@ -1,8 +1,8 @@
 (* C06: the diff contains a non-SAME entry exactly when the two documents
    differ as data -- sequence order disregarded in the value-synchronised
    mode -- for every uniform pair of options --arrays position|value x
-   --aoh position|dpos|value, all document pairs without explicit tags
-   (finding F1), any YAMLPath.__eq__ in the pop step. *)
+   --aoh position|dpos|value, all document pairs (tags included, since the
+   repair of finding F1), any YAMLPath.__eq__ in the pop step. *)
 From Coq Require Import List Ascii String ZArith NArith Bool Arith Lia Permutation.
 From YP Require Import Outcome PyStr PyVal Doc Diff C06Spec DiffBase DiffEq DiffKeys DiffSync DiffSym DiffAcct DiffKSync DiffCover.
 Import ListNotations.
@@ -30,23 +30,14 @@ Proof.
   destruct xs as [|x r]; auto. simpl. fold (nonsame (f x)). rewrite H. reflexivity.
 Qed.
 
-(* ---- well-formed and untagged, inherited by children ---- *)
-Definition okd (n : node) : Prop := wf_doc n = true /\ untagged n = true.
+(* ---- well-formed, inherited by children ---- *)
+Definition okd (n : node) : Prop := wf_doc n = true.
 
 Lemma okd_child : forall n c, okd n -> In c (children n) -> okd c.
-Proof.
-  intros n c [Hw Hu] Hin. split; [eapply wf_children; eauto|].
-  destruct n as [i v|i kvs|i els|i els]; simpl in Hin; try contradiction.
-  - apply in_map_iff in Hin. destruct Hin as [kv [<- Hkv]]. eapply untagged_map_inv; eauto.
-  - eapply untagged_seq_inv; eauto.
-  - eapply untagged_set_inv; eauto.
-Qed.
+Proof. intros n c Hw Hin. eapply wf_children; eauto. Qed.
 
-Lemma okd_eq : forall a b, okd a -> okd b -> node_eq a b = data_eq a b.
-Proof. intros a b [A1 A2] [B1 B2]. apply node_eq_data_eq; auto. Qed.
-
-Lemma okd_tag : forall n, okd n -> tag (node_info n) = None.
-Proof. intros n [_ H]. apply untagged_tag; auto. Qed.
+Lemma okd_eq : forall a b, okd a -> okd b -> val_eq a b = data_eq a b.
+Proof. intros a b A1 B1. apply val_eq_data_eq; auto. Qed.
 
 (* a fold whose steps each add a known contribution to "shows a difference" *)
 Lemma fold_SD {X} (f : list entry -> X -> outcome (list entry)) (g : X -> bool) : forall xs a a',
@@ -60,33 +51,33 @@ Proof.
     rewrite (Hf a x b (or_introl eq_refl) E). rewrite orb_assoc. reflexivity.
 Qed.
 
-Lemma purge_nonsame : forall path q l, Forall (fun e => nonsame e = true) (purge path q l []).
+Lemma purge_nonsame : forall path q l root, Forall (fun e => nonsame e = true) (purge path q l root []).
 Proof.
-  intros path q l. destruct l as [i v| | |]; simpl; try rewrite app_nil_r.
-  - destruct v; simpl; repeat constructor.
+  intros path q l root. destruct l as [i v| | |]; simpl; try rewrite app_nil_r.
+  - destruct v, root; simpl; repeat constructor.
   - apply Forall_forall. intros e He. apply in_rev in He. apply in_map_iff in He. destruct He as [x [<- _]]. reflexivity.
   - apply Forall_forall. intros e He. apply in_rev in He. apply in_map_iff in He. destruct He as [x [<- _]]. reflexivity.
   - apply Forall_forall. intros e He. apply in_rev in He. apply in_map_iff in He. destruct He as [x [<- _]]. reflexivity.
 Qed.
-Lemma add_nonsame : forall path q l, Forall (fun e => nonsame e = true) (add_everything path q l []).
+Lemma add_nonsame : forall path q l root, Forall (fun e => nonsame e = true) (add_everything path q l root []).
 Proof.
-  intros path q l. destruct l as [i v| | |]; simpl; try rewrite app_nil_r.
-  - destruct v; simpl; repeat constructor.
+  intros path q l root. destruct l as [i v| | |]; simpl; try rewrite app_nil_r.
+  - destruct v, root; simpl; repeat constructor.
   - apply Forall_forall. intros e He. apply in_rev in He. apply in_map_iff in He. destruct He as [x [<- _]]. reflexivity.
   - apply Forall_forall. intros e He. apply in_rev in He. apply in_map_iff in He. destruct He as [x [<- _]]. reflexivity.
   - apply Forall_forall. intros e He. apply in_rev in He. apply in_map_iff in He. destruct He as [x [<- _]]. reflexivity.
 Qed.
 
 (* the type-clash branch always shows a difference *)
-Lemma clash_SD : forall path q l r a a',
-  (let a1 := add_everything path q r (purge path q l a) in
+Lemma clash_SD : forall path q l r root a a',
+  (let a1 := add_everything path q r root (purge path q l root a) in
    if Nat.eqb (List.length a1) (List.length a)
    then Ok (mkentry AChange path q l r :: a1) else Ok a1) = Ok a' ->
   SD a' = true.
 Proof.
-  intros path q l r a a' H. cbv zeta in H.
+  intros path q l r root a a' H. cbv zeta in H.
   rewrite add_everything_app, purge_app in H.
-  set (pl := purge path q l []) in *. set (ar := add_everything path q r []) in *.
+  set (pl := purge path q l root []) in *. set (ar := add_everything path q r root []) in *.
   rewrite !app_length in H.
   destruct (Nat.eqb (List.length ar + (List.length pl + List.length a)) (List.length a)) eqn:El;
     inversion H; subst; clear H.
@@ -116,14 +107,14 @@ Proof.
 Qed.
 
 Lemma sync_bag : forall lhs red,
-  (forall x y, In x (map snd lhs) -> In y (map snd red) -> node_eq y x = data_eq y x) ->
+  (forall x y, In x (map snd lhs) -> In y (map snd red) -> val_eq y x = data_eq y x) ->
   forallb matched (sync_value_go lhs red) = bag_eqb data_eq (map snd lhs) (map snd red).
 Proof.
   induction lhs as [|[li le] rest IH]; simpl; intros red H.
   - destruct red as [|[ri re] r]; reflexivity.
-  - pose proof (extract_remove (@snd nat node) (fun y => node_eq y le) (fun y => data_eq y le) red) as X.
+  - pose proof (extract_remove (@snd nat node) (fun y => val_eq y le) (fun y => data_eq y le) red) as X.
     simpl in X.
-    destruct (extract_first (fun p => node_eq (snd p) le) red) as [[[ri re] red']|] eqn:Ex.
+    destruct (extract_first (fun p => val_eq (snd p) le) red) as [[[ri re] red']|] eqn:Ex.
     + rewrite X; [|intros p Hp; apply H; [left; reflexivity | apply in_map; exact Hp]].
       simpl. apply IH. intros x y Hx Hy. apply H; [right; exact Hx|].
       destruct (extract_first_perm _ _ _ _ Ex) as [P _].
@@ -155,17 +146,18 @@ Definition key_fold (rec : rec_t) (d : bool) (path : string) (q : loc) (r0 : nod
   end.
 
 (* which comparer _diff_lists runs under a uniform pair of options *)
-Lemma lists_dispatch : forall path_eq cfg am hm rec path q r lels rels par pref a,
+Lemma lists_dispatch : forall path_eq cfg am hm rec path q l r lels rels par pref a,
   uniform cfg am hm ->
-  diff_lists path_eq cfg rec path q r lels rels par pref a =
+  opt_str_eqb (tag (node_info l)) (tag (node_info r)) = true ->
+  diff_lists path_eq cfg rec path q l r lels rels par pref a =
   match list_mode am hm rels with
   | LPos d => zip_go rec d path q r 0 lels rels a
   | LValue => diff_synced path_eq rec path q r lels rels a
   | LKey d => foldM (key_fold rec d path q r) (sync_key cfg r lels rels) a
   end.
 Proof.
-  intros path_eq cfg am hm rec path q r lels rels par pref a [Ha Hh].
-  unfold diff_lists, diff_aoh, diff_arrays, list_mode.
+  intros path_eq cfg am hm rec path q l r lels rels par pref a [Ha Hh] Ht.
+  unfold diff_lists. rewrite Ht. cbn [negb]. unfold diff_aoh, diff_arrays, list_mode.
   destruct rels as [|[ | | | ] rr]; rewrite ?Hh, ?Ha; simpl; rewrite ?Ha; simpl;
     destruct am, hm; reflexivity.
 Qed.
@@ -245,13 +237,12 @@ Section Iff.
     okd (NMap i lkvs) -> okd (NMap j rkvs) ->
     let adds := filter (fun kv => negb (map_has (fst kv) lkvs)) rkvs in
     let dels := filter (fun kv => negb (map_has (fst kv) rkvs)) lkvs in
-    E (NMap i lkvs) (NMap j rkvs) = negb (nonempty adds || nonempty dels || existsb (gshared lkvs) rkvs).
+    E (NMap i lkvs) (NMap j rkvs) =
+    tag_eqb (tag i) (tag j) && negb (nonempty adds || nonempty dels || existsb (gshared lkvs) rkvs).
   Proof.
-    intros i lkvs j rkvs OL OR adds dels.
-    destruct OL as [HwL HuL]. destruct OR as [HwR HuR].
+    intros i lkvs j rkvs HwL HwR adds dels.
     destruct (wf_map_inv _ _ HwL) as [Lp [Ln Lw]].
     destruct (wf_map_inv _ _ HwR) as [Rp [Rn Rw]].
-    pose proof (untagged_tag _ HuL) as Ti. pose proof (untagged_tag _ HuR) as Tj. simpl in Ti, Tj.
     assert (Ed : dels = dels_of kkey kkey lkvs rkvs).
     { unfold dels, dels_of. apply filter_ext_in. intros [k v] Hin. simpl.
       assert (Pk : plain_leaf k = true) by (rewrite forallb_forall in Lp; apply (Lp (k, v) Hin)).
@@ -269,7 +260,7 @@ Section Iff.
       rewrite (map_get_findk _ _ Lp Pk) in Eg.
       destruct (findk kkey (key_val k') lkvs) as [[kn w]|] eqn:F; simpl in Eg; try discriminate.
       inversion Eg; subst. apply findk_some in F. exists kn. exact F. }
-    rewrite equiv_map, Ti, Tj. change (tag_eqb None None) with true. rewrite andb_true_l.
+    rewrite equiv_map, <- andb_assoc. f_equal.
     match goal with |- ?X = _ => destruct X eqn:EE end; symmetry.
     - (* equivalent: nothing added, nothing deleted, every shared pair equivalent *)
       apply andb_true_iff in EE. destruct EE as [Len F]. apply Nat.eqb_eq in Len.
@@ -328,13 +319,15 @@ Section Iff.
     SD a' = SD a || negb (E (NMap i lkvs) (NMap j rkvs)).
   Proof.
     intros rec path q i lkvs j rkvs a a' Hrec OL OR HG H.
-    rewrite (dict_equiv_iff _ _ _ _ OL OR). cbv zeta. rewrite negb_involutive.
+    rewrite (dict_equiv_iff _ _ _ _ OL OR). cbv zeta.
     pose proof OL as OL0. pose proof OR as OR0.
-    pose proof (okd_tag _ OL) as Ti. pose proof (okd_tag _ OR) as Tj. simpl in Ti, Tj.
-    destruct OL as [HwL HuL]. destruct OR as [HwR HuR].
+    pose proof OL as HwL. pose proof OR as HwR.
     destruct (wf_map_inv _ _ HwL) as [Lp [Ln Lw]].
     destruct (wf_map_inv _ _ HwR) as [Rp [Rn Rw]].
-    unfold diff_dicts in H. simpl in H. rewrite Ti, Tj in H. simpl in H.
+    unfold diff_dicts in H. simpl in H. rewrite opt_str_tag_eqb in H.
+    destruct (tag_eqb (tag i) (tag j)); simpl in H.
+    2:{ inversion H; subst. rewrite !SD_cons. simpl. rewrite orb_true_r. reflexivity. }
+    rewrite andb_true_l, negb_involutive.
     match type of H with (bind ?F _ = _) => destruct F as [acc1| |] eqn:EF end; simpl in H; try discriminate.
     inversion H; subst; clear H.
     assert (FS := fun Hs => fold_SD _ (gshared lkvs) rkvs a acc1 Hs EF).
@@ -350,8 +343,8 @@ Section Iff.
       destruct (map_get k lkvs) as [lv|] eqn:Eg.
       + rewrite Hhas in Hstep. destruct (map_get_in _ _ _ Eg) as [kn Hkn].
         eapply Hrec; [ | | | exact Hstep].
-        * apply (okd_child (NMap i lkvs)); [split; auto|]. simpl. apply in_map_iff. exists (kn, lv). auto.
-        * apply (okd_child (NMap j rkvs)); [split; auto|]. simpl. apply in_map_iff. exists (k, rv). auto.
+        * apply (okd_child (NMap i lkvs)); [auto|]. simpl. apply in_map_iff. exists (kn, lv). auto.
+        * apply (okd_child (NMap j rkvs)); [auto|]. simpl. apply in_map_iff. exists (k, rv). auto.
         * eapply (G_map i lkvs j rkvs k rv lv); eauto.
       + inversion Hstep; subst. rewrite orb_false_r. reflexivity.
   Qed.
@@ -363,10 +356,9 @@ Section Iff.
     let dels := filter (fun k => negb (set_has k rels)) lels in
     E (NSet i lels) (NSet j rels) = negb (nonempty adds || nonempty dels).
   Proof.
-    intros i lels j rels OL OR adds dels.
-    destruct OL as [HwL HuL]. destruct OR as [HwR HuR].
+    intros i lels j rels HwL HwR adds dels.
     destruct (wf_set_inv _ _ HwL) as [Lp Ln]. destruct (wf_set_inv _ _ HwR) as [Rp Rn].
-    pose proof (untagged_tag _ HuL) as Ti. pose proof (untagged_tag _ HuR) as Tj. simpl in Ti, Tj.
+    pose proof (wf_set_tag _ _ HwL) as Ti. pose proof (wf_set_tag _ _ HwR) as Tj.
     assert (Ed : dels = dels_of key_val key_val lels rels).
     { unfold dels, dels_of. apply filter_ext_in. intros k Hin.
       assert (Pk : plain_leaf k = true) by (rewrite forallb_forall in Lp; auto).
@@ -417,7 +409,7 @@ Section Iff.
 
   Lemma plain_okd : forall n, plain_leaf n = true -> okd n.
   Proof.
-    intros n H. destruct (plain_leaf_inv _ H) as [i [v [-> Ti]]]. split; simpl; auto; try (rewrite Ti; reflexivity).
+    intros n H. apply wf_plain_leaf; auto.
   Qed.
 
   Lemma sets_iff : forall rec path q i lels j rels a a',
@@ -427,7 +419,7 @@ Section Iff.
   Proof.
     intros rec path q i lels j rels a a' Hrec OL OR H.
     rewrite (set_equiv_iff _ _ _ _ OL OR). cbv zeta. rewrite negb_involutive.
-    destruct OL as [HwL HuL]. destruct OR as [HwR HuR].
+    pose proof OL as HwL. pose proof OR as HwR.
     destruct (wf_set_inv _ _ HwL) as [Lp Ln]. destruct (wf_set_inv _ _ HwR) as [Rp Rn].
     unfold diff_sets in H.
     match type of H with (bind ?F _ = _) => destruct F as [acc1| |] eqn:EF end; simpl in H; try discriminate.
@@ -484,7 +476,7 @@ Section Iff.
             apply (HG eq_refl). left; reflexivity.
           - inversion EF; subst. rewrite SD_cons. unfold cmp_entry, nonsame. simpl.
             rewrite <- (okd_eq le re (OL le (or_introl eq_refl)) (OR re (or_introl eq_refl))).
-            destruct (node_eq le re); simpl; rewrite ?orb_false_r, ?orb_true_r; reflexivity. }
+            destruct (val_eq le re); simpl; rewrite ?orb_false_r, ?orb_true_r; reflexivity. }
         rewrite St, negb_andb, orb_assoc. reflexivity.
   Qed.
 
@@ -513,7 +505,7 @@ Section Iff.
         * destruct (pair_elems _ _ _ _ _ _ _ El Pr Hin) as [I1 I2].
           pose proof (sync_value_go_matched _ _ _ _ _ _ Hin) as M.
           rewrite (okd_eq _ _ (OR _ I2) (OL _ I1)) in M.
-          destruct (OL _ I1) as [W1 _]. destruct (OR _ I2) as [W2 _].
+          pose proof (OL _ I1) as W1. pose proof (OR _ I2) as W2.
           pose proof (data_eq_sym _ _ W2 W1 M) as D.
           pose proof (HG _ _ I1 I2 D) as Gp.
           rewrite (Hrec _ _ _ _ _ _ _ _ (OL _ I1) (OR _ I2) Gp Hstep). simpl.
@@ -558,14 +550,14 @@ Section Iff.
     { unfold first_key in FK. destruct rels as [|[|i0 [|[k0 v0] kvs0]| |] rr]; try discriminate FK.
       inversion FK; subst K.
       assert (Pk0 : plain_leaf k0 = true).
-      { destruct (CR (NMap i0 ((k0, v0) :: kvs0)) (or_introl eq_refl)) as [W _].
+      { pose proof (CR (NMap i0 ((k0, v0) :: kvs0)) (or_introl eq_refl)) as W.
         destruct (wf_map_inv _ _ W) as [Kp _]. simpl in Kp. apply andb_true_iff in Kp. tauto. }
       unfold sync_key. rewrite (aoh_diff_key_nokeys _ _ _ _ Hc). simpl fst.
       apply sync_key_go_ksync; auto.
       - intros p Hp. destruct p as [n x]. apply enumerate_nth in Hp. apply nth_error_In in Hp. simpl.
-        destruct (CL x Hp) as [W U]. repeat split; auto.
+        pose proof (CL x Hp) as W. split; auto.
       - intros p Hp. destruct p as [n y]. apply enumerate_nth in Hp. apply nth_error_In in Hp. simpl.
-        destruct (CR y Hp) as [W U]. repeat split; auto. }
+        pose proof (CR y Hp) as W. split; auto. }
     rewrite Hps in H, El, Pr.
     set (ps := ksync idf (enumerate lels) (enumerate rels)) in *.
     assert (Sh : forall p, In p ps -> shape idf (enumerate lels) (enumerate rels) p).
@@ -630,22 +622,26 @@ Section Iff.
           apply (GD eq_refl); auto. rewrite (SI le re H1 H2). apply py_eq_sym. exact H3.
         * inversion Hstep; subst. rewrite SD_cons. unfold cmp_entry, nonsame. cbn [e_action].
           rewrite <- (okd_eq le re (CL _ H1) (CR _ H2)).
-          destruct (node_eq le re); cbn [negb orb]; rewrite ?orb_false_r, ?orb_true_r; reflexivity.
+          destruct (val_eq le re); cbn [negb orb]; rewrite ?orb_false_r, ?orb_true_r; reflexivity.
       + inversion Hstep; subst. rewrite SD_cons. simpl. rewrite orb_true_r. reflexivity.
       + inversion Hstep; subst. rewrite SD_cons. simpl. rewrite orb_true_r. reflexivity.
   Qed.
 
   Lemma lists_iff : forall rec path q i lels j rels par pref a a',
     rec_iff rec -> okd (NSeq i lels) -> okd (NSeq j rels) -> Guard (NSeq i lels) (NSeq j rels) ->
-    diff_lists path_eq cfg rec path q (NSeq j rels) lels rels par pref a = Ok a' ->
+    diff_lists path_eq cfg rec path q (NSeq i lels) (NSeq j rels) lels rels par pref a = Ok a' ->
     SD a' = SD a || negb (E (NSeq i lels) (NSeq j rels)).
   Proof.
     intros rec path q i lels j rels par pref a a' Hrec OL OR HG H.
-    pose proof (okd_tag _ OL) as Ti. pose proof (okd_tag _ OR) as Tj. simpl in Ti, Tj.
     assert (CL : forall x, In x lels -> okd x) by (intros x Hx; apply (okd_child _ _ OL); exact Hx).
     assert (CR : forall y, In y rels -> okd y) by (intros y Hy; apply (okd_child _ _ OR); exact Hy).
-    rewrite equiv_seq, Ti, Tj. change (tag_eqb None None) with true. rewrite andb_true_l.
-    rewrite (lists_dispatch _ _ _ _ _ _ _ _ _ _ _ _ _ Hu) in H.
+    rewrite equiv_seq.
+    destruct (tag_eqb (tag i) (tag j)) eqn:Tg.
+    2:{ unfold diff_lists in H. simpl in H. rewrite opt_str_tag_eqb, Tg in H. simpl in H.
+        inversion H; subst. rewrite !SD_cons. simpl. rewrite orb_true_r. reflexivity. }
+    rewrite andb_true_l.
+    rewrite (lists_dispatch _ _ _ _ _ _ _ (NSeq i lels) _ _ _ _ _ _ Hu) in H
+      by (simpl; rewrite opt_str_tag_eqb; exact Tg).
     destruct (list_mode am hm rels) as [[|]| |d] eqn:M.
     - eapply (zip_iff rec true); try eassumption. intros _. eapply G_zip; eauto.
     - eapply (zip_iff rec false); try eassumption. intros X; discriminate X.
@@ -658,12 +654,12 @@ Section Iff.
     intros rec Hrec path q l r par pref a a' OL OR HG H.
     destruct l as [i v|i lkvs|i lels|i lels], r as [j w|j rkvs|j rels|j rels];
       try (match type of H with diff_body _ _ _ _ _ ?l ?r _ _ _ = Ok _ =>
-             rewrite (clash_SD path q l r a a' H) end; simpl; rewrite orb_true_r; reflexivity);
+             rewrite (clash_SD path q l r _ a a' H) end; simpl; rewrite orb_true_r; reflexivity);
       simpl in H.
     - inversion H; subst. unfold diff_scalars. rewrite SD_cons.
       change (E (NLeaf i v) (NLeaf j w)) with (data_eq (NLeaf i v) (NLeaf j w)).
       rewrite <- (okd_eq _ _ OL OR). unfold cmp_entry, nonsame. cbn [e_action].
-      destruct (node_eq (NLeaf i v) (NLeaf j w)); cbn [negb orb]; rewrite ?orb_false_r, ?orb_true_r; reflexivity.
+      destruct (val_eq (NLeaf i v) (NLeaf j w)); cbn [negb orb]; rewrite ?orb_false_r, ?orb_true_r; reflexivity.
     - eapply dicts_iff; eauto.
     - eapply lists_iff; eauto.
     - eapply sets_iff; eauto.
@@ -677,13 +673,13 @@ Section Iff.
   Qed.
 
   Theorem compare_to_iff_G : forall L R es,
-    wf_doc L = true -> wf_doc R = true -> untagged L = true -> untagged R = true -> Guard L R ->
+    wf_doc L = true -> wf_doc R = true -> Guard L R ->
     compare_to path_eq cfg L R = Ok es -> shows_difference es = negb (equiv am hm L R).
   Proof.
-    intros L R es HwL HwR HuL HuR HG H. unfold compare_to in H.
+    intros L R es HwL HwR HG H. unfold compare_to in H.
     match type of H with (bind ?F _ = _) => destruct F as [acc| |] eqn:EF end; simpl in H; try discriminate.
     inversion H; subst. rewrite SD_rev.
-    rewrite (between_iff _ _ _ _ _ _ _ _ _ (conj HwL HuL) (conj HwR HuR) HG EF). reflexivity.
+    rewrite (between_iff _ _ _ _ _ _ _ _ _ HwL HwR HG EF). reflexivity.
   Qed.
 End Iff.
 
@@ -691,12 +687,12 @@ End Iff.
 Theorem compare_to_iff : forall path_eq cfg am hm,
   uniform cfg am hm -> unkeyed hm = true ->
   forall L R es,
-    wf_doc L = true -> wf_doc R = true -> untagged L = true -> untagged R = true ->
+    wf_doc L = true -> wf_doc R = true ->
     compare_to path_eq cfg L R = Ok es -> shows_difference es = negb (equiv am hm L R).
 Proof.
-  intros path_eq cfg am hm Hu Hk L R es HwL HwR HuL HuR H.
+  intros path_eq cfg am hm Hu Hk L R es HwL HwR H.
   apply (compare_to_iff_G path_eq cfg am hm Hu (fun _ _ => True)); auto.
-  - intros x y [W1 _] [W2 _] _ D. apply data_eq_equiv; auto.
+  - intros x y W1 W2 _ D. apply data_eq_equiv; auto.
   - intros i lels j rels d _ _ _ M. exfalso. exact (list_mode_unkeyed _ _ _ _ Hk M).
 Qed.
 
@@ -722,7 +718,7 @@ Qed.
 Lemma nonsame_iff_differ :
   forall path_eq cfg am hm L R es,
     uniform cfg am hm -> unkeyed hm = true ->
-    wf_doc L = true -> wf_doc R = true -> untagged L = true -> untagged R = true ->
+    wf_doc L = true -> wf_doc R = true ->
     compare_to path_eq cfg L R = Ok es ->
     shows_difference es = negb (equiv am hm L R).
 Proof. intros. eapply compare_to_iff; eauto. Qed.
@@ -730,11 +726,11 @@ Proof. intros. eapply compare_to_iff; eauto. Qed.
 Lemma nonsame_iff_differ_positional :
   forall path_eq cfg hm L R es,
     uniform cfg ArrPosition hm -> hm = AohPosition \/ hm = AohDpos ->
-    wf_doc L = true -> wf_doc R = true -> untagged L = true -> untagged R = true ->
+    wf_doc L = true -> wf_doc R = true ->
     compare_to path_eq cfg L R = Ok es ->
     shows_difference es = negb (data_eq L R).
 Proof.
-  intros path_eq cfg hm L R es Hu Hm HwL HwR HuL HuR H.
+  intros path_eq cfg hm L R es Hu Hm HwL HwR H.
   rewrite <- (equiv_positional hm Hm). eapply compare_to_iff; eauto.
   destruct Hm as [-> | ->]; reflexivity.
 Qed.
@@ -743,31 +739,22 @@ Qed.
 Lemma equal_no_difference :
   forall path_eq cfg am hm L R es,
     uniform cfg am hm -> unkeyed hm = true ->
-    wf_doc L = true -> wf_doc R = true -> untagged L = true -> untagged R = true ->
+    wf_doc L = true -> wf_doc R = true ->
     data_eq L R = true ->
     compare_to path_eq cfg L R = Ok es -> shows_difference es = false.
 Proof.
-  intros path_eq cfg am hm L R es Hu Hk HwL HwR HuL HuR He H.
-  rewrite (compare_to_iff path_eq cfg am hm Hu Hk L R es HwL HwR HuL HuR H).
+  intros path_eq cfg am hm L R es Hu Hk HwL HwR He H.
+  rewrite (compare_to_iff path_eq cfg am hm Hu Hk L R es HwL HwR H).
   rewrite (data_eq_equiv am hm Hk L R HwL HwR He). reflexivity.
 Qed.
 
 Lemma reflexive_no_difference :
   forall path_eq cfg am hm L es,
-    uniform cfg am hm -> unkeyed hm = true -> wf_doc L = true -> untagged L = true ->
+    uniform cfg am hm -> unkeyed hm = true -> wf_doc L = true ->
     compare_to path_eq cfg L L = Ok es -> shows_difference es = false.
 Proof. intros. eapply equal_no_difference; eauto. apply data_eq_refl. Qed.
 
-(* ---- refutation witnesses ---- *)
-(* F1: two loads of one tagged scalar are equal data, the diff shows a CHANGE *)
-Lemma nonsame_iff_refuted_witness :
-  exists L R es, wf_doc L = true /\ wf_doc R = true /\ data_eq L R = true /\
-    compare_to path_eq_real dflt_cfg L R = Ok es /\ shows_difference es = true.
-Proof.
-  exists (tagged_b 1), (tagged_b 2), [mkentry AChange ""%string [] (tagged_b 1) (tagged_b 2)].
-  repeat split; vm_compute; reflexivity.
-Qed.
-
+(* ---- refutation witness ---- *)
 (* F4: --aoh key, a record without the identity key: the document differs from itself *)
 Definition key_cfg : dcfg := mkdcfg false [] [] (Some "position"%string) (Some "key"%string) None None.
 Definition pl_leaf (o : N) (v : pyval) : node := NLeaf (mkinfo o None false None) v.
@@ -777,7 +764,7 @@ Definition keyless_doc : node :=
      NMap (mkinfo 4 None true None) [(pl_leaf 5 (PStr "b"), pl_leaf 6 (PInt 2))]].
 
 Lemma reflexive_refuted_witness :
-  exists cfg d es, uniform cfg ArrPosition AohKey /\ wf_doc d = true /\ untagged d = true /\
+  exists cfg d es, uniform cfg ArrPosition AohKey /\ wf_doc d = true /\
     compare_to path_eq_real cfg d d = Ok es /\ shows_difference es = true.
 Proof.
   exists key_cfg, keyless_doc.
